@@ -22,8 +22,8 @@ CASE_TIMEOUT = 60
 MODES = {"quick": ["jit", "nojit"], "thorough": ["jit", "nojit", "bounds"], "search": ["jit", "nojit"]}
 RULE = ("files are rendered from a cell grammar {empty, plain, leading/trailing blank, blank only, quoted separator, quoted "
         "doubled quote, quoted newline, quoted blank, needlessly quoted, multi-byte UTF-8} with or without a final newline. "
-        "Exhaustive (seed independent): all files of <=2 columns x <=2 rows over 7 cell kinds (quick; thorough: <=3 x <=3 over "
-        "5 kinds) x every chunk_row_size from the smallest supported one upwards (window = 2*crs*columns bytes; includes boundaries "
+        "Exhaustive (seed independent): all files of <=2 columns x <=2 rows over 7 cell kinds (quick: every 3rd case of the "
+        "2x2 shape; thorough: all, plus every 5th file of 2x3 and 3x2 over 5 kinds) x every chunk_row_size from the smallest supported one upwards (window = 2*crs*columns bytes; includes boundaries "
         "inside quoted cells, between the two quotes of an escaped quote and exactly at record ends) x per-column value budgets "
         "{1, 2, ample}; all-empty-cell files (index buffer fills before the window ends); kernel-level: every byte string over "
         "{x , \" \\n blank} up to length 6 (quick) / 7 (thorough) with and without header, entry at every offset. Seeded random: "
@@ -248,28 +248,38 @@ def gen_cases(tier, rng):
     cases = list(corpus.load("C05"))
     quick = tier == "quick"
     # ---- 1. exhaustive small files through the driver: every supported crs near the boundary, tiny and ample budgets
-    kinds, mc, mr = (K7, 2, 2) if quick else (K5, 3, 3)
+    #         (kinds, max columns, max rows, keep every n-th file of the largest shape, all crs between lo and hi?)
+    scopes = [(K7, 2, 2, 1, False)] if quick else [(K7, 2, 2, 1, True), (K5, 2, 3, 5, False), (K5, 3, 2, 5, False)]
     n = 0
-    for header, rows in files_exhaustive(kinds, mc, mr):
-        ncols = len(header)
-        for final_nl in (True, False):
-            if not final_nl and rows and render_row(rows[-1]) == b"\n":
-                continue        # would be a different file (the empty last record disappears)
-            data = render(header, rows, final_nl)
-            selfcheck(header, rows, data)
-            lo = min_crs(data, ncols)
-            hi = max(lo, (len(data) + 2 * ncols - 1) // (2 * ncols))     # first crs that reads the file in one window
-            css = sorted(set([lo, lo + 1, (lo + hi) // 2, hi, hi + 1]))
-            if not quick or ncols * len(rows) <= 2:
-                css = sorted(set(css) | set(range(lo, hi + 2)))
-            for crs in css:
-                for bud in ([1] * ncols, [2] * ncols, [64] * ncols):
-                    n += 1
-                    if quick and ncols * len(rows) == 4 and (n % 3 != 0):
-                        continue
-                    cases.append(mk_driver(data, ncols, crs, bud))
-            if lo > 1:
-                cases.append(mk_driver(data, ncols, lo - 1, [64] * ncols, why="one below the supported regime (D6)"))
+    seen_files = set()
+    for kinds, mc, mr, step, allcrs in scopes:
+        fcount = 0
+        for header, rows in files_exhaustive(kinds, mc, mr):
+            ncols = len(header)
+            fcount += 1
+            if step > 1 and ncols * len(rows) == mc * mr and fcount % step:
+                continue
+            for final_nl in (True, False):
+                if not final_nl and rows and render_row(rows[-1]) == b"\n":
+                    continue        # would be a different file (the empty last record disappears)
+                data = render(header, rows, final_nl)
+                if data in seen_files:
+                    continue
+                seen_files.add(data)
+                selfcheck(header, rows, data)
+                lo = min_crs(data, ncols)
+                hi = max(lo, (len(data) + 2 * ncols - 1) // (2 * ncols))     # first crs that reads the file in one window
+                css = sorted(set([lo, lo + 1, (lo + hi) // 2, hi, hi + 1]))
+                if allcrs or ncols * len(rows) <= 2:
+                    css = sorted(set(css) | set(range(lo, hi + 2)))
+                for crs in css:
+                    for bud in ([1] * ncols, [2] * ncols, [64] * ncols):
+                        n += 1
+                        if quick and ncols * len(rows) == 4 and (n % 3 != 0):
+                            continue
+                        cases.append(mk_driver(data, ncols, crs, bud))
+                if lo > 1:
+                    cases.append(mk_driver(data, ncols, lo - 1, [64] * ncols, why="one below the supported regime (D6)"))
     # ---- 2. all-empty-cell files: the index buffer fills before / exactly at the window end (NC05a symptom 3)
     for ncols in (1, 2, 3):
         for nrows in range(0, 10 if quick else 20):
